@@ -98,9 +98,11 @@ class ModbusClientProtocol(protocol.Protocol,
 
         :param data: The data returned from the server
         """
-        unit = self.framer.decode_data(data).get("unit", 0)
+        # replies are paired with requests by transaction id; the unit id
+        # found in the first bytes of a segment says nothing about the
+        # other (or the partial) frames in it, so do not filter on it
         self.framer.processIncomingPacket(data, self._handleResponse,
-                                          unit=unit)
+                                          unit=0, single=True)
 
     def execute(self, request):
         """ 
